@@ -180,6 +180,53 @@ func worldBarrage(w *World) {
 			viol("stall", "session-message-handling-stalled", "session %s is open but did not answer a heartbeat within 20 s after the barrage", c.Name)
 		}
 	}
+	// a peer that stops reading its control connection while it keeps sending requests the server answers, until
+	// nothing moves any more - and then goes away. Its session must end like any other: port released, and the run id
+	// usable for a new login.
+	if w.KnobBool("deaf_flooder", 40) {
+		w.Check("C16.deaf-flooder-session-ends")
+		d := env.newClient("deaf", 0)
+		if rr, err := d.login(""); err == nil && mstr(rr, "error") == "" {
+			if rr, got := d.register(M{"proxy_name": "deafp", "proxy_type": "tcp", "remote_port": 20018}); got && mstr(rr, "error") == "" {
+				w.Probe("barrage.deaf_flooder")
+				d.PauseRead.Store(true)
+				time.Sleep(100 * time.Millisecond)
+				nameLen, nflood := w.KnobPick("deaf_name_len", 200, 4000), 4000
+				if w.Net.Cfg().MSS < 64 {
+					nameLen, nflood = 100, 600 // byte-sized segments: keep the run within the step budget
+				}
+				long := strings.Repeat("n", nameLen)
+				done := make(chan struct{})
+				d.Node.Go(func() {
+					defer close(done)
+					for j := 0; j < nflood; j++ {
+						if d.Send(tNewProxy, M{"proxy_name": "deafp", "proxy_type": "tcp", "remote_port": 20018, "group": long}) != nil {
+							return
+						}
+					}
+				})
+				select {
+				case <-done:
+				case <-time.After(20 * time.Second):
+				}
+				runID := d.RunID
+				w.Net.CrashNode(d.Node) // the peer dies: its connections are reset
+				time.Sleep(time.Second)
+				if !w.WaitUntil(15*time.Second, 200*time.Millisecond, func() bool { return !env.frpsTCPPorts()[20018] }) {
+					viol("stall", "session-of-vanished-peer-never-ends", "a peer stopped reading, flooded the server with registrations until nothing moved and vanished: 16 s later its proxy's port is still bound")
+				}
+				again := env.newClient("deaf2", 0)
+				lr := make(chan M, 1)
+				again.Node.Go(func() { rr, _ := again.login(runID); lr <- rr })
+				select {
+				case <-lr:
+				case <-time.After(15 * time.Second):
+					viol("stall", "relogin-after-vanished-peer-unanswered", "a login with the run id of a vanished, formerly flooding peer got no reply within 15 s")
+				}
+				again.Drop()
+			}
+		}
+	}
 	// failures are confined: the honest tunnel and a fresh login still work
 	w.Check("C16.bystander-and-fresh-login")
 	if honest.IsClosed() {
